@@ -79,7 +79,7 @@ def gen_delete_storm_script(rng):
 
 def gen(tier, rng):
     n = 60 if tier == 'quick' else 800
-    return [('conc%05d' % i, gen_script(rng, tier)) for i in range(n)] + [('lock%05d' % i, gen_lock_script(rng, tier)) for i in range(n // 6)] + [('spread%05d' % i, gen_spread_script(rng, tier)) for i in range(n // 6)] + [('storm%05d' % i, gen_delete_storm_script(rng)) for i in range(max(2, n // 30))]
+    return [('conc%05d' % i, gen_script(rng, tier)) for i in range(n)] + [('lock%05d' % i, gen_lock_script(rng, tier)) for i in range(n // 6)] + [('storm%05d' % i, gen_delete_storm_script(rng)) for i in range(max(2, n // 30))] + [('spread%05d' % i, gen_spread_script(rng, tier)) for i in range(n // 6)]
 
 
 def parse_par(o):
